@@ -295,3 +295,20 @@ Lemma reads_pure_refuted_subclass_copy :
   | Err _ => False
   end.
 Proof. split; [repeat constructor|]. vm_compute. repeat split; try reflexivity; discriminate. Qed.
+
+(* ------------------------------------------------------------------ *)
+(* transport *)
+Lemma transports_id : forall n v, transports n v = v.
+Proof. induction n as [|n IH]; intro v; simpl; [reflexivity | unfold transport; apply IH]. Qed.
+
+(* after any number of transport steps an object is observed - content, to_dict, hash key, hash(), id validity -
+   exactly as a fresh twin with the same content, and is equal to it *)
+Theorem transport_hash : forall (Hid : rval -> atom) (Hpy : rval -> N) g s n v twin,
+  resolve g s v = resolve g s twin -> r_wf (resolve g s twin) = true ->
+  observe Hid Hpy g s (transports n v) = observe Hid Hpy g s twin /\
+  obj_hash Hpy (resolve g s (transports n v)) = obj_hash Hpy (resolve g s twin) /\
+  obj_eqb g s (transports n v) twin = true.
+Proof.
+  intros Hid Hpy g s n v twin E W. rewrite transports_id. unfold observe, obj_eqb. rewrite E.
+  split; [reflexivity|]. split; [reflexivity|]. apply r_eqb_refl. exact W.
+Qed.
